@@ -31,13 +31,20 @@ Proof.
     constructor.
 Qed.
 
-Lemma relex_refuted :
-  exists s toks ds t, lex_all s = Done toks ds /\ In t toks /\
-    ~ relex_prop t (slice_of_text s (t_s t) (t_e t)).
+(* Finding F24 (fixed in /repo by 10bee32): before the fix the real-literal arm dropped the
+   "invalid integer character" error, so `1g.5` produced the real-valued literal `1`, whose slice
+   re-lexes to an integer.  Function-level witness with the pre-fix arm. *)
+Lemma relex_old_refuted :
+  let s := [49; 103; 46; 53] in
+  exists st', parse_abstract_literal_old (split_lines s) 10 rstart = (Ok (KAbstractLiteral, VAbsReal [49]), st')
+    /\ slice_of_text s (0, 0) (r_pos st') = [49]
+    /\ exists t ds, lex_all [49] = Done [t] ds /\ t_kind t = KAbstractLiteral /\ t_val t <> VAbsReal [49].
 Proof.
-  exists [49; 103; 46; 53].
-  destruct (lex_all [49; 103; 46; 53]) as [toks ds|a] eqn:E; [|vm_compute in E; discriminate].
-  vm_compute in E. injection E as <- <-.
-  eexists. eexists. eexists. split; [reflexivity|]. split; [left; reflexivity|].
-  intros [t' [ds' [E [K V]]]]. vm_compute in E. injection E as <- _. cbn in V. discriminate.
+  cbv zeta. eexists. split; [vm_compute; reflexivity|]. split; [vm_compute; reflexivity|].
+  eexists. eexists. split; [vm_compute; reflexivity|]. split; [reflexivity|]. cbn. discriminate.
 Qed.
+(* the repaired code reports the error and produces no such token *)
+Lemma f24_fixed :
+  exists toks, lex_all [49; 103; 46; 53] = Done toks [TErr (0, 1) (0, 2) 2] /\
+    map t_kind toks = [KIdentifier; KDot; KAbstractLiteral].
+Proof. eexists. split; vm_compute; reflexivity. Qed.
